@@ -4,5 +4,5 @@
 import sys
 sys.path[:0] = ['/repo' + "/pulser-core", '/repo' + "/pulser-simulation", "/verif"]
 from symx.replay import replay
-sys.exit(replay(check='checks.c17', kernel='noise', shape={'params': ['p_false_neg'], 'runs': True},
-                assignment={'p_false_neg': '1/1'}, label='k1:roundtrip_field:runs'))
+sys.exit(replay(check='checks.c17', kernel='noise', shape={'params': ['amp_sigma'], 'runs': True},
+                assignment={'amp_sigma': '0/1'}, label='k1:roundtrip_field:runs'))
